@@ -115,6 +115,8 @@ class Peer:
         self.received = b""                # everything the client ever sent
         self.outq = bytearray()            # bytes not yet pushed into the kernel
         self.recv_fault = None             # exception for the client's next read once drained
+        self.held = b""                    # tail of a reply the handler holds back (delayed delivery): the handler
+                                           # of the next request on this connection sends it first
         self.server_closed = False
         self.client_closed = False
         self.requests = []
